@@ -321,6 +321,23 @@ impl MintBuilder {
         Ok(mint)
     }
 
+    /// Keys that must sign for the minting policies: the signer set declared for a script source
+    /// (inline or behind a reference input, native or Plutus) when there is one, otherwise every key
+    /// of an inline native script.
+    pub(crate) fn get_required_signers(&self) -> Ed25519KeyHashes {
+        let mut set = Ed25519KeyHashes::new();
+        for script_mint in self.mints.values() {
+            let signers = match script_mint {
+                ScriptMint::Native(native_mints) => native_mints.script.required_signers(),
+                ScriptMint::Plutus(plutus_mints) => plutus_mints.script.get_required_signers(),
+            };
+            if let Some(signers) = signers {
+                set.extend_move(signers);
+            }
+        }
+        set
+    }
+
     pub fn get_native_scripts(&self) -> NativeScripts {
         let mut native_scripts = Vec::new();
         for script_mint in self.mints.values() {
